@@ -12,6 +12,9 @@ META = {
     "level": "Decides the structural clauses: the new Manifest reaches the real path only through AtomicWriteFile.close() on the success path; text order never depends on dict/listing/input order (all emitting iterations are sorted, checksum columns included); the 'already current' short cut is exactly equality with the regenerated text; the entry types and the field layout written are the ones parse_manifest accepts (TYPE name size (CHF hex)*), size is implicit, checksum names upper-cased on write and lower-cased on read, hex both ways. Does NOT decide checksums of concrete files.",
     "note": "",
 }
+META["technique"] += "; " + 'effect analysis on Manifest generation'
+META["level"] += " Added after the second round of independent changes: " + '(R6) _manifest_line and Manifest.update do not edit the checksum mappings they are given.'
+META["technique"] += "; " + 'generic pack G on the anchored files (optional-flag shift, closures outliving a loop iteration, single-pass iterables consumed twice, %-templates built from data, in-place writes to class-level / memoised objects, generators mutating what they yielded, memo keys that are projections)'
 MOD = "pkgcore.ebuild.digest"
 
 
